@@ -46,7 +46,13 @@ func c04Slice(payload string) ([]string, error) {
 }
 
 func c04Env(id string, label string) (*Environment, []string) {
-	env := fenvNew(&fenvConf{}, &fenvRec{}, "CONFIGURED", nil)
+	// any state: an environment is registered (and holds its detectors) from the moment its workflow is loaded, in
+	// STANDBY, through deployment and until it is torn down
+	state := "CONFIGURED"
+	if label == "a" {
+		state = []string{"STANDBY", "DEPLOYED", "CONFIGURED", "RUNNING", "ERROR"}[vrt.IntRange(label+".state", 0, 4)]
+	}
+	env := fenvNew(&fenvConf{}, &fenvRec{}, state, nil)
 	env.id = uid.ID(id)
 	n := vrt.IntRange(label+".detectors", 0, 2+vrt.Tier())
 	var list, quoted []string
